@@ -242,7 +242,10 @@ Proof.
     destruct (strict && (zlen (bdata s) <? target)); [apply Hs|].
     destruct (target <? 0); [apply Hs|reflexivity].
   - (* HClose *)
-    unfold aspec_step, bf_step, bh_local. rewrite Hn. reflexivity.
+    unfold aspec_step, bf_step, bh_local. rewrite Hn. destruct (bclosed b) eqn:Ec; [|reflexivity].
+    cbn [fst snd].
+    assert (Eb : mkBH (bpos b) true (bro b) = b) by (destruct b as [p c r]; cbn in *; now subst).
+    rewrite Eb. apply Hs.
 Qed.
 
 Lemma aspec_step_noslot strict s o i :
